@@ -637,6 +637,9 @@ def selftest(with_mutants=True):
         for d in sorted(glob.glob(os.path.join(runner.VERIF, 'seeded', '*'))):
             meta = json.load(open(os.path.join(d, 'meta.json')))
             pid = meta.get('breaks_property') or meta['property']
+            if meta.get('obsolete'):
+                print('selftest: seeded %-10s skipped (obsolete: %s)' % (os.path.basename(d), meta['obsolete'][:90]))
+                continue
             wt = tempfile.mkdtemp(prefix='fbv_mut_', dir='/tmp')
             outd = tempfile.mkdtemp(prefix='fbv_mutout_', dir='/tmp')
             try:
